@@ -383,5 +383,12 @@ def run(case):
             confusions.append(("T", cmd, [("InFieldNames", ("list", [b(x) for x in ins]))]))
             confusions.append(("T", cmd, [("InFieldNames", ("list", []))]))
         texts = [("%s %r" % (c[1], c[2][1:]), G.render(G.items_of(pre + [c]))[0]) for c in confusions]
+        # unquoted text that BEGINS like a number (file names starting with a year, grouped digits, codes): whatever the lexer makes of it,
+        # it is a value, a syntax error or an MPilot error
+        pre_text = G.render(G.items_of(pre))[0]
+        for word in ("2020_sites.csv", "1__2", "12_", "3_000", "1_000_000", "0x1F", "1e5x", "5.5.5", "7-zip.csv", "-_1", "+_", "1e", "1e+", "2020-01-01", "10%", "1_a.b_2"):
+            texts.append(("numberlike word %s as a file name" % word, pre_text + "R3 = EEMSRead(\n    InFileName = %s,\n    InFieldName = A\n)\n" % word))
+            texts.append(("numberlike word %s as a number" % word, pre_text + "T = CvtToBinary(\n    InFieldName = A,\n    Threshold = %s,\n    Direction = LowToHigh\n)\n" % word))
+            texts.append(("numberlike word %s in metadata and a list" % word, pre_text + "T = Sum(\n    InFieldNames = [A, %s],\n    Metadata = [Code: %s]\n)\n" % (word, word)))
         n, distinct, sample = _run_texts(texts, "csv", viols, outcomes, "confusion")
     return {"evals": max(n, 1), "nontrivial": distinct, "judged": n, "viols": viols, "outcomes": outcomes, "sample": sample}
